@@ -180,11 +180,19 @@ func genRestr(rng *rand.Rand, types []string, conds []string, plain bool) []Ref 
 }
 
 func genConds(rng *rand.Rand, n int) []Cond {
-	names := genNames(rng, condPool, n, false)
+	pool := condPool
+	if n > len(condPool) {
+		pool = append(append([]string{}, condPool...), "k1", "k2", "k3", "k4", "k5", "K6", "k_7", "k-8", "zz", "Zz")
+	}
+	names := genNames(rng, pool, n, false)
 	out := []Cond{}
 	for _, nm := range names {
 		c := Cond{Name: nm, Expr: pick(rng, exprPool)}
-		pn := genNames(rng, paramPool, 1+rng.Intn(3), false)
+		np := 1 + rng.Intn(3)
+		if n > len(condPool) && rng.Intn(3) == 0 {
+			np = 13 + rng.Intn(3) // more than a dozen parameters
+		}
+		pn := genNames(rng, paramPool, np, false)
 		for _, p := range pn {
 			pr := Param{Name: p, Type: pick(rng, paramTypes)}
 			if rng.Intn(4) == 0 {
@@ -216,7 +224,12 @@ func GenModel(rng *rand.Rand, o GenOpts) *Model {
 		types = genNames(rng, typePoolLarge, 13+rng.Intn(18), false)
 	}
 	var condNames []string
-	if o.Conds && rng.Intn(2) == 0 {
+	if o.Conds && o.Large && rng.Intn(3) == 0 {
+		m.Conds = genConds(rng, 14+rng.Intn(6)) // more than a dozen conditions
+		for _, c := range m.Conds {
+			condNames = append(condNames, c.Name)
+		}
+	} else if o.Conds && rng.Intn(2) == 0 {
 		m.Conds = genConds(rng, 1+rng.Intn(2))
 		for _, c := range m.Conds {
 			condNames = append(condNames, c.Name)
@@ -290,7 +303,8 @@ func GenModel(rng *rand.Rand, o GenOpts) *Model {
 		if o.Modular {
 			// module, file and name are drawn independently (their orders need not agree); a file may be
 			// missing although a module is set, and the other way round
-			files := []string{"", "a.fga", "b.fga", "m/x.fga", "z.fga", "core/f.fga"}
+			// (a '%' in a file name: the name is text, never a format string)
+			files := []string{"", "a.fga", "b.fga", "m/x.fga", "z.fga", "core/f.fga", "p%d/q%s.fga"}
 			t.Module = pick(rng, modules)
 			t.File = pick(rng, files)
 			if rng.Intn(8) == 0 {
